@@ -32,6 +32,7 @@ def main():
     payload = _boot.read_payload()
     which, n = payload["which"], int(payload.get("n", 300))
     failures = []
+    findings = []      # [{"key": .., "text": ..}]: misbehaviour with a stable signature (known_findings.txt)
     state = {"armed": False, "n": 0}
 
     class L(LookupBase):
@@ -557,13 +558,59 @@ def main():
             populate(t[0], [tuple(a) for a in reg.allRegistrations()], [tuple(a) for a in reg.allSubscriptions()])
             return all_queries(t)
 
+        def partial_answers(reg, extra=None):
+            """what registries holding a PREFIX of reg's replay sequence answer (per query tuple of one
+            registry of the triple): the answers a half-replayed registry gives"""
+            seq = [("r", tuple(a)) for a in reg.allRegistrations()] + [("s", tuple(a)) for a in reg.allSubscriptions()]
+            tp = triple(AdapterRegistry)
+            seen = set()
+
+            def note():
+                for x in tp:
+                    seen.add(queries(x) + (extra(x) if extra else ()))
+            note()
+            for kind, a in seq:
+                (tp[0].register if kind == "r" else tp[0].subscribe)(*a)
+                note()
+            return seen
+
+        F14 = "F14-lookup-midway-through-rebuild-sees-partially-replayed-registry"
+
+        def judge_midway(label, observed, before, after, partial, where):
+            """observed / before / after / partial: sets of per-registry answer tuples; one tuple is a
+            sequence of separate lookups (each may see another moment), so it is judged query by query"""
+            for d in observed:
+                for qi, ans in enumerate(d):
+                    if any(b[qi] == ans for b in before) or any(a[qi] == ans for a in after):
+                        continue
+                    # what a registry holding only SOME of the registrations answers: one of the prefix answers,
+                    # or (lookupAll / subscriptions gather from several dictionaries at different moments) a
+                    # collection made only of items that prefix answers contain
+                    def partial_like():
+                        if any(x[qi] == ans for x in partial):
+                            return True
+                        if isinstance(ans, tuple) and ans and all(isinstance(x[qi], tuple) for x in partial):
+                            items = {it for x in partial for it in x[qi]}
+                            return all(it in items for it in ans)
+                        return False
+                    if label == "rebuild" and partial is not None and partial_like():
+                        if not any(f["key"] == F14 for f in findings):
+                            findings.append({"key": F14, "text": "query %d %s strictly inside rebuild() answered %r, which is what a "
+                                             "partially replayed registry (a prefix of its registrations) answers; before and "
+                                             "after rebuild() the answer is %r" % (qi, where, ans, sorted(before, key=repr)[0][qi])})
+                        continue
+                    if len(failures) < 6:
+                        failures.append("query %d %s in the middle of %s() answered %r; before %r, after %r"
+                                        % (qi, where, label, ans, sorted({b[qi] for b in before}, key=repr),
+                                           sorted({a[qi] for a in after}, key=repr)))
+
         other = AdapterRegistry()
         mutators = [
             ("register", lambda r: r.register([JJ], PP, "", "d"), True),
             ("unregister", lambda r: r.unregister([JJ], PP, ""), True),
             ("subscribe", lambda r: r.subscribe([JJ], PP, "s3"), True),
             ("unsubscribe", lambda r: r.unsubscribe([JJ], PP, "s3"), True),
-            ("rebuild", lambda r: r.rebuild(), False),
+            ("rebuild", lambda r: r.rebuild(), True),
             ("set __bases__", lambda r: setattr(r, "__bases__", (other,)), True),
             ("reset __bases__", lambda r: setattr(r, "__bases__", ()), True),
         ]
@@ -572,6 +619,7 @@ def main():
         populate(t[0], base_regs, base_subs)
         for label, mut, single_write in mutators:
             before = all_queries(t)
+            partial = partial_answers(t[0]) if label == "rebuild" else None
             during = []
             hook[0] = lambda: (state.__setitem__("n", state["n"] + 1), during.append(all_queries(t)))
             try:
@@ -586,10 +634,7 @@ def main():
                 failures.append("after %s() with lookups from its storage hooks: %s answers %r, a fresh registry %r"
                                 % (label, ("the registry", "an AdapterRegistry based on it", "a VerifyingAdapterRegistry based on it")[k],
                                    after[k], want[k]))
-            if single_write:
-                bad = [d for d in during if d != before and d != after]
-                if bad and len(failures) < 6:
-                    failures.append("a lookup in the middle of %s() answered %r; before %r, after %r" % (label, bad[0], before, after))
+            judge_midway(label, {x for d in during for x in d}, set(before), set(after), partial, "from a storage hook")
         if not state["n"]:
             failures.append("no lookup ran inside a mutator")
         # ---- a lookup thread against rebuild() and the other mutators
@@ -598,14 +643,20 @@ def main():
         populate(t[0], base_regs + [([II], PP, "y%d" % j, "w%d" % j) for j in range(100)], base_subs)
         stop = [False]
         errs = []
+        cur = [None]            # id of the mutator call that is running right now
+        seen_mid = {}           # call id -> answers seen strictly inside it
+
+        def ys(x):
+            return tuple(x.lookup([JJ], PP, "y%d" % j) for j in (3, 50, 99))
 
         def reader():
             try:
                 while not stop[0]:
-                    all_queries(t)
-                    for j in (3, 50, 99):
-                        for x in t:
-                            x.lookup([JJ], PP, "y%d" % j)
+                    for x in t:
+                        c0 = cur[0]
+                        a = queries(x) + ys(x)
+                        if c0 is not None and cur[0] == c0:
+                            seen_mid.setdefault(c0, set()).add(a)
             except Exception as e:   # noqa
                 errs.append("%s: %s" % (type(e).__name__, str(e)[:100]))
 
@@ -617,11 +668,21 @@ def main():
             while time.time() < deadline and len(failures) < 6:
                 rounds += 1
                 for label, mut, _sw in mutators:
-                    mut(t[0])
-                    stop_now = all_queries(t) + tuple(tuple(x.lookup([JJ], PP, "y%d" % j) for j in (3, 50, 99)) for x in t)
+                    before = {queries(x) + ys(x) for x in t}
+                    if label == "rebuild" and "thr" not in state:
+                        state["thr"] = partial_answers(t[0], ys)
+                    call_id = (rounds, label)
+                    cur[0] = call_id
+                    try:
+                        mut(t[0])
+                    finally:
+                        cur[0] = None
+                    after = {queries(x) + ys(x) for x in t}
+                    judge_midway(label, seen_mid.pop(call_id, set()), before, after, state.get("thr"), "from another thread")
+                    stop_now = all_queries(t) + tuple(ys(x) for x in t)
                     tf = triple(AdapterRegistry)
                     populate(tf[0], [tuple(a) for a in t[0].allRegistrations()], [tuple(a) for a in t[0].allSubscriptions()])
-                    want = all_queries(tf) + tuple(tuple(x.lookup([JJ], PP, "y%d" % j) for j in (3, 50, 99)) for x in tf)
+                    want = all_queries(tf) + tuple(ys(x) for x in tf)
                     if stop_now != want:
                         failures.append("round %d: after %s() racing a lookup thread the registries answer %r, fresh ones %r"
                                         % (rounds, label, stop_now, want))
@@ -633,7 +694,7 @@ def main():
             failures.append("lookup thread: " + errs[0])
     else:
         failures.append("unknown scenario " + which)
-    _boot.write_result({"summary": "survived, %d callbacks fired" % state["n"], "failures": failures})
+    _boot.write_result({"summary": "survived, %d callbacks fired" % state["n"], "failures": failures, "findings": findings})
 
 
 main()
